@@ -278,6 +278,14 @@ def _shard(ctx, rng, ovf):
         judge(ctx, "test-spec", res, dict(case, channel="test-spec"), "doc:" + name)
         res = ctx.w.run({"k": "cli", "argv": ["validate", "--payload"], "stdin": dtext})
         judge(ctx, "payload-envelope", res, dict(case, channel="payload-envelope"), "doc:" + name)
+        # several test files for one rules file, the hostile one before and after a well-formed one, every renderer
+        good = '[{"name": "ok", "input": {"a": 1}, "expectations": {"rules": {"r": "PASS"}}}]'
+        for first, second in (("r_a_tests.yaml", "r_b_tests.json"), ("r_z_tests.yaml", "r_b_tests.json")):
+            fl3 = {"r.guard": rtext, "tests/" + first: dtext, "tests/" + second: good}
+            fmt3 = ["json", "junit", "yaml", None][idx % 4]
+            for argv3 in (["test", "-d", "{S}", "-a"], ["test", "-r", "{S}/r.guard", "-t", "{S}/tests", "-a"]):
+                res = ctx.w.run({"k": "cli", "argv": argv3 + (["-o", fmt3] if fmt3 else []), "files": fl3})
+                judge(ctx, "test-several-files", res, dict(case, channel="test-several-files", files=fl3, argv=argv3 + (["-o", fmt3] if fmt3 else [])), "doc:" + name)
     # ------------------------------------------------ argument combinations: omitted / conflicting / unsupported options end in a usage or diagnostic error
     if ctx.mine(3):
         fl = {"r.guard": "rule r {\n    a == 1\n}\n", "d.json": '{"a": 2}', "t.json": '[{"name": "c", "input": {"a": 2}, "expectations": {"rules": {"r": "FAIL"}}}]',
